@@ -157,6 +157,7 @@ type CmdNode struct {
 	Extra    []*GroupNode `json:"extra,omitempty"` // groups added with AddGroup
 	Args     []*ArgNode   `json:"args,omitempty"`
 	ArgsReq  bool         `json:"argsReq,omitempty"` // required tag on the positional-args struct
+	ArgSplit int          `json:"argSplit,omitempty"` // > 0: the positionals are declared in two positional-args structs, this many in the first
 	Cmds     []*CmdNode   `json:"cmds,omitempty"`
 
 	idx int
